@@ -23,6 +23,8 @@ type Case struct {
 	Trunc  *TruncCase  `json:"trunc,omitempty"`
 	RCheck *RCheckCase `json:"rcheck,omitempty"`
 	Data   *DataCase   `json:"data,omitempty"`
+	Retry  *RetryCase  `json:"retry,omitempty"`
+	Fanout *FanoutCase `json:"fanout,omitempty"`
 }
 
 // result of running one case on the implementation
@@ -54,6 +56,8 @@ func engines() []engine {
 		{"trunc", 1500, genTrunc, runTrunc},
 		{"rcheck", 120, genRCheck, runRCheck},
 		{"data", 700, genData, runData},
+		{"retry", 700, genRetry, runRetry},
+		{"fanout", 500, genFanout, runFanout},
 	}
 }
 
